@@ -498,7 +498,13 @@ func (o *ObjectSchema) expandSubObjectDefaultValues(
 	// object); it is copied, never extended in place.
 	data := map[string]any{}
 	if existingData, ok := rawData[propertyID]; ok {
-		for k, v := range existingData.(map[string]any) {
+		existingMap, isMap := existingData.(map[string]any)
+		if !isMap {
+			// The declared default of the property is not the map form of the sub-object (it is its single-property
+			// shorthand, or something the sub-object is going to reject): there is nothing to merge defaults into.
+			return
+		}
+		for k, v := range existingMap {
 			data[k] = v
 		}
 	}
